@@ -17,6 +17,30 @@
 //     loser of the race return at once, documented as a guard against
 //     recursion); the bare processor serialises concurrent Shutdown callers,
 //     so there EVERY Shutdown call that returned nil is asserted.
+//   - ORDER of life-cycle calls on one processor. A Shutdown call that loses the
+//     race against a CONCURRENT Shutdown call may return early (reading above,
+//     concurrent calls only). A Shutdown call that is issued strictly AFTER an
+//     earlier Shutdown call has returned an error (its context had ended) and
+//     itself returns nil is "that call returns without error": the clauses hold
+//     for it in full (sub-check bsp_lifecycle, kinds
+//     later_shutdown_nil_before_handover / export_after_later_shutdown_nil).
+//     The pinned tree did not meet that: the failed call left the worker
+//     draining in the background and every later Shutdown returned nil at once
+//     through the sync.Once ("It only executes once. Subsequent call does
+//     nothing."), i.e. before the hand-over had finished - repaired by /repo
+//     63802c8 (every call waits, within its context, for the one shutdown);
+//     regression replay replays/regress/C01/later_shutdown_nil_while_draining.json.
+//     Two consequences of the statement that do
+//     not depend on how fast the background drain is are asserted everywhere
+//     under their own kinds: a span whose End is issued after a Shutdown call
+//     has returned nil is never handed to the exporter
+//     (accepted_after_shutdown), and once the processor is quiescent (it has
+//     shut its exporter down) every span that ended before the first Shutdown
+//     was issued and cannot have been dropped has been handed over, whatever
+//     the earlier calls returned (lost_after_failed_shutdown).
+//   - A span whose End returns after some Shutdown call was issued is owed
+//     nothing, whichever call returns nil later (documented: "Do not enqueue
+//     spans after Shutdown").
 //   - In non-blocking mode a span that is not visible at such a return must
 //     never be exported later (it can only have been dropped), and at the end
 //     of a run without a mid-run Shutdown the number of never-exported spans
@@ -39,7 +63,9 @@
 // Sub-checks: bsp_history (this file: concurrent programs, one processor),
 // bsp_fill (this file: exact queue fill level), bsp_storm (storm_test.go:
 // End/Shutdown storms on an idle processor), provider_pipeline
-// (pipeline_test.go: several processors behind one TracerProvider).
+// (pipeline_test.go: several processors behind one TracerProvider),
+// bsp_lifecycle (lifecycle_test.go: sequential orders of ForceFlush / Shutdown
+// calls with generated contexts on one bare processor).
 package c01
 
 import (
@@ -710,12 +736,46 @@ func runOnce(c Case) ([]vk.Violation, map[string]bool) {
 	time.Sleep(200 * time.Microsecond)
 
 	// A Shutdown whose context expired leaves the processor draining in the
-	// background; wait (bounded, cleanup only) until it has shut the exporter
-	// down so that nothing of this run is still executing.
-	for i := 0; i < 4000 && exp.shutdowns.Load() == 0; i++ {
-		time.Sleep(500 * time.Microsecond)
+	// background; wait until it has shut the exporter down (which it does after
+	// the final export) so that nothing of this run is still executing. Bounded:
+	// 2 s when nothing is outstanding (cleanup only), a 30 s hang watchdog while,
+	// in blocking mode, a span that ended before the first Shutdown was issued is
+	// still missing (the drain takes milliseconds).
+	outstanding := func() bool {
+		if !c.Blocking {
+			return false
+		}
+		got := make([]bool, total)
+		exp.mu.Lock()
+		for _, call := range exp.calls {
+			for _, id := range call.ids {
+				if id >= 0 && id < total {
+					got[id] = true
+				}
+			}
+		}
+		exp.mu.Unlock()
+		for id := 0; id < total; id++ {
+			if e := ends[id]; e.done && !e.unsampled && e.end < firstShutdownIssue && !got[id] {
+				return true
+			}
+		}
+		return false
 	}
-	for i := 0; i < 4000 && exp.inflight.Load() != 0; i++ {
+	drained := false // the exporter was shut down, or the watchdog expired
+	for begin := time.Now(); ; {
+		if exp.shutdowns.Load() > 0 && exp.inflight.Load() == 0 {
+			drained = true
+			break
+		}
+		limit, long := 2*time.Second, outstanding()
+		if long {
+			limit = 30 * time.Second
+		}
+		if time.Since(begin) > limit {
+			drained = long
+			break
+		}
 		time.Sleep(500 * time.Microsecond)
 	}
 
@@ -813,6 +873,46 @@ func runOnce(c Case) ([]vk.Violation, map[string]bool) {
 	for ci, call := range ecalls {
 		if allShutdownsNil && call.enter > firstNilShutdownEnd {
 			bad("export_after_shutdown", "ExportSpans call %d started (t=%d) after Shutdown had returned nil (t=%d)", ci, call.enter, firstNilShutdownEnd)
+		}
+	}
+	// Whatever the other Shutdown calls returned (an earlier one may have
+	// failed on its context and left the worker draining): the bare processor
+	// makes every Shutdown caller wait for the call that executes, so once ANY
+	// Shutdown call has returned nil, a span whose End is ISSUED afterwards is
+	// never handed to the exporter ("nothing is exported after Shutdown has
+	// returned" - such a span can only be exported after it).
+	if !c.ViaProvider {
+		nilRet, found := int64(1)<<62, false
+		for _, r := range calls {
+			if r.kind == "shutdown" && r.err == nil && r.end < nilRet {
+				nilRet, found = r.end, true
+			}
+		}
+		for id := 0; found && id < total; id++ {
+			if call, ok := where[id]; ok && ends[id].done && ends[id].start > nilRet {
+				bad("accepted_after_shutdown", "span %d, whose End was issued at t=%d, after a Shutdown call had returned nil at t=%d, was handed to the exporter at t=%d", id, ends[id].start, nilRet, call.enter)
+			}
+		}
+		if !allShutdownsNil && found {
+			classes["Shutdown_returned_nil_although_another_Shutdown_call_failed"] = true
+		}
+	}
+	// A Shutdown call failed, another returned nil, and the processor is now
+	// quiescent (it has shut its exporter down, which it does after the final
+	// export): in blocking mode every sampled span whose End returned before the
+	// first Shutdown was issued has been handed over - a span that is never
+	// handed over at all falsifies the nil return whichever way "by the time
+	// that call returns" is read.
+	if c.Blocking && !allShutdownsNil && drained {
+		someNil := false
+		for _, r := range calls {
+			someNil = someNil || (r.kind == "shutdown" && r.err == nil)
+		}
+		for id := 0; someNil && id < total; id++ {
+			e := ends[id]
+			if _, ok := where[id]; !ok && e.done && !e.unsampled && e.end < firstShutdownIssue {
+				bad("lost_after_failed_shutdown", "span %d (End returned t=%d, before the first Shutdown was issued at t=%d) was never handed to the exporter in blocking mode although a Shutdown call returned nil (exporter shut down %d time(s))", id, e.end, firstShutdownIssue, exp.shutdowns.Load())
+			}
 		}
 	}
 	if allShutdownsNil && exp.shutdowns.Load() != 1 {
